@@ -38,14 +38,14 @@ enum ProbeId { P_rollover, P_rollover_all_generations_present, P_restart_on_empt
                P_restart_on_full, P_crash_in_write_call, P_crash_between_close_and_first_rename, P_crash_between_renames,
                P_crash_after_last_rename_before_open, P_crash_at_open, P_crash_outside_roll, P_torn_tail_glued,
                P_inflight_complete_after_crash, P_inflight_absent_after_crash, P_directory_created_by_policy,
-               P_max_gen_one, P_oversized_message, P_recovery_rolled_twice, P_degraded_window, P_exception_under_fault, P_files_handler_wrapper, P_long_entry, P_new_series_after_date_change };
+               P_max_gen_one, P_oversized_message, P_recovery_rolled_twice, P_degraded_window, P_exception_under_fault, P_files_handler_wrapper, P_long_entry, P_new_series_after_date_change, P_ten_or_more_generations_on_disk };
 const char* const kProbeNames[] = { "rollover", "rollover_with_all_generations_present", "restart_on_empty_generation0",
                "restart_on_partly_filled_generation0", "restart_on_full_generation0", "crash_in_write_call",
                "crash_between_close_and_first_rename", "crash_between_two_renames", "crash_after_last_rename_before_open",
                "crash_at_open", "crash_outside_rollover", "torn_tail_glued_to_next_line", "inflight_message_complete_after_crash",
                "inflight_message_absent_after_crash", "directory_created_by_policy", "max_gen_one", "oversized_single_message",
                "recovery_rolled_twice", "degraded_window_after_io_error", "exception_under_fault",
-               "through_files_handler_wrapper", "entry_longer_than_1000_bytes", "new_file_series_after_date_change" };
+               "through_files_handler_wrapper", "entry_longer_than_1000_bytes", "new_file_series_after_date_change", "ten_or_more_generation_files_on_disk" };
 
 /// formatter for the files::Handler wrapper: the message text as it is (the
 /// default formatter adds fields and a line end of its own)
@@ -289,6 +289,7 @@ struct Run
    void checkLimits( const Files& current, const char* when)
    {
       const Files  f = combined( current);
+      if (current.size() >= 10) st.probe( P_ten_or_more_generations_on_disk);
       for (auto const& kv : f)
       {
          if (kv.first % 1000 >= max_gen && kv.first >= 0)
@@ -748,7 +749,9 @@ struct Run
       // after an I/O error) may have reached the disk in part as well
       for (auto & m : msgs)
          if (m.may_be_missing) m.crashed = true;
-      const Files  at_crash = snapshot();
+      // (with a date part the fragment may sit in the file of the new date)
+      nowRank();
+      const Files  at_crash = combined( snapshot());
       for (auto const& kv : at_crash)
          if (!kv.second.empty() && kv.second.back() != '\n') ++torn_fragments;
       // the dead process' objects cannot touch the frozen disk
@@ -781,7 +784,7 @@ struct Run
    {
       counted = plan.gets( "policy") != "maxsize";
       limit = static_cast< size_t>( std::max< long long>( 1, plan.geti( "limit", 3)));
-      max_gen = static_cast< int>( std::max< long long>( 1, std::min< long long>( 8, plan.geti( "max_gen", 2))));
+      max_gen = static_cast< int>( std::max< long long>( 1, std::min< long long>( 16, plan.geti( "max_gen", 2))));
       const Json&  nm = plan.get( "name");
       dir = nm.gets( "dir").empty() ? "logs" : nm.gets( "dir");
       base = nm.gets( "base").empty() ? "app" : nm.gets( "base");
@@ -1067,6 +1070,14 @@ public:
       const long long  limit = counted ? cfg.range( 1, 5) : cfg.range( 8, 64);
       plan[ "limit"] = limit;
       plan[ "max_gen"] = cfg.range( 1, 4);
+      // swarm: many generations (more than a one-digit number width can show)
+      // with a small limit, so that a short history rolls through all of them
+      const bool  many_generations = cfg.chance( 1, 10);
+      if (many_generations)
+      {
+         plan[ "max_gen"] = cfg.range( 9, 12);
+         plan[ "limit"] = counted ? cfg.range( 1, 2) : cfg.range( 8, 12);
+      }
       plan[ "wrapper"] = cfg.chance( 1, 4);
       Json  nm = Json::object();
       static const char* const  dirs[] = { "logs", "var/log", "a" };
@@ -1074,6 +1085,7 @@ public:
       nm[ "base"] = cfg.chance( 1, 2) ? "app" : "x.y";
       nm[ "ext"] = cfg.chance( 1, 2) ? ".log" : "";
       nm[ "width"] = cfg.chance( 1, 2) ? 0 : cfg.range( 1, 3);
+      if (many_generations && cfg.chance( 2, 3)) nm[ "width"] = 1;
       // variant 3: date part in the file name (a new series of generations per date)
       nm[ "variant"] = cfg.chance( 1, 7) ? 3 : cfg.range( 0, 2);
       nm[ "precreate"] = cfg.chance( 3, 4);
@@ -1087,7 +1099,8 @@ public:
       const bool      strict_len = cfg.chance( 3, 4);   // messages always fit the byte limit
       const bool      long_entries = cfg.chance( 1, 8);
       const size_t    max_ops = thorough ? 40 : 24;
-      const size_t    nops = 1 + static_cast< size_t>( wl.below( wl.chance( 1, 3) ? 6 : max_ops));
+      size_t          nops = 1 + static_cast< size_t>( wl.below( wl.chance( 1, 3) ? 6 : max_ops));
+      if (many_generations) nops = max_ops;
       Json  ops = Json::array();
       for (size_t k = 0; k < nops; ++k)
       {
